@@ -205,8 +205,15 @@ impl AsmParser {
                 lines_ok(self_.air.ast@),
                 bp_wf(self_.air.breakpoints.0@),
                 forall|i: int| 0 <= i < self_.air.breakpoints.0@.len() ==> (#[trigger] self_.air.breakpoints.0@[i]).address as int <= self_.air.ast@.len(),
+                // C01 "one word per statement": so far exactly one statement per instruction / trap / data token consumed
+                0 <= self_.toks.pos() <= self_.toks.all().len(),
+                self_.air.ast@.len() == count_heads(self_.toks.all(), self_.toks.pos() as int),
+            ensures
+                // the loop is left only when the token stream is exhausted
+                self_.toks.pos() == self_.toks.all().len(),
             decreases self_.toks.all().len() - self_.toks.pos(),
         {
+            proof { reveal_with_fuel(count_heads, 7); }
             let mut labeled_line = false;>>>
 //@contract AsmParser_parse.c
 //@end
@@ -229,6 +236,8 @@ impl AsmParser {
             accepts(kind, old(self).toks.rest()) matches Some(n) ==> (r matches Ok(st)
                 && stmt_ok(kind, st, old(self).toks.rest(), old(self).line, old(self).src, old(sym)@)
                 && advanced(*old(self), *final(self), n as int)
+                // the operand tokens are registers, literals and labels: none of them begins another statement
+                && (forall|j: int| 0 <= j < n ==> !is_head(#[trigger] old(self).toks.rest()[j]))
                 // C17: the statement's text ends with its last operand
                 && final(self).tok_end == (if n > 0 { span_end(old(self).toks.rest()[n - 1].span) } else { old(self).tok_end as int })),
 //@end
